@@ -197,6 +197,37 @@ def _r1(ctx):
                         r1.bad('loop|%s' % v, 'coerce_loop_value builds %s for a control variable of class %s' % (cv, v), loc='%s:%d' % (fx.fns[lv]['file'], arm['line']))
                     elif cv:
                         r1.ok('loop|%s' % v)
+    # (a2) template-keyed tables for values that come from outside the program (debugger / control plane / HMI / mesh):
+    # the arm for a slot holding Value::X builds only Value::X (premise of treating these writers as typed)
+    for fid, what in (('trust_runtime::runtime::cycle::typed_for_slot', 'typed_for_slot'),
+                      ('trust_runtime::mesh::json_to_value', 'mesh json_to_value'),
+                      ('trust_runtime::control::parse_hmi_write_value', 'parse_hmi_write_value')):
+        if fid not in fx.fns:
+            r1.bad('anchor-missing|%s' % what.replace(' ', '-'), '%s not found (it types values written from outside the program)' % fid)
+            continue
+        for m in fx.matches_in(fid):
+            sty = m['sty']
+            if not ('value::types::Value' in sty):
+                continue
+            for arm in m['arms']:
+                pats = ' '.join(arm['pats'])
+                # the slot / template side is the *last* Value pattern of a tuple, or the only one
+                pv = re.findall(r'trust_runtime::value::types::Value::(\w+)', pats)
+                if not pv:
+                    continue
+                cons = sorted({r.split('::')[-1] for r in arm['refs'] if r.startswith('trust_runtime::value::types::Value::')})
+                if not cons:
+                    continue
+                slots = set(pv) if not pats.startswith('tuple(') else {pv[-1]}
+                r1.saw()
+                extra = [c for c in cons if c not in slots and not (len(slots) > 1)]
+                key = '%s|%s' % (what.replace(' ', '-'), '+'.join(sorted(slots)))
+                if len(slots) == 1 and set(cons) - slots:
+                    r1.bad(key, '%s builds %s for a slot holding %s: a value written from outside the program changes the type the variable holds' % (what, cons, sorted(slots)), loc='%s:%d' % (fx.fns[fid]['file'], arm['line']))
+                elif len(slots) > 1 and (set(cons) - slots):
+                    r1.bad(key, '%s builds %s in an arm for slots %s' % (what, cons, sorted(slots)), loc='%s:%d' % (fx.fns[fid]['file'], arm['line']))
+                else:
+                    r1.ok(key)
     # (b) TypeId-keyed tables: coerce_from_io and the helpers of coerce_value_to_type
     for fid in sorted(k for k in fx.fns if re.search(r'^trust_runtime::(io::coerce_from_io|harness::coerce::coerce_\w+)$', k)):
         fname = fid.split('::')[-1]
